@@ -12,6 +12,45 @@ at byte level for the text form (every record order, every line terminator CR*LF
 zeros in numbers, names with commas/colons, any other `key:value` line), at value-tree level for
 the JSON form (JSON text → value tree and gzip are serde_json's and flate2's, trusted).
 The maps of a result are observed through `get?` (C09_*_line_count, …_branch_vector, …_function).
+
+JSON documents of later gcov versions. `C09_json_fidelity` is about the key set gcov 9 writes
+(`Doc.toJson`). gcov 13 adds `block_ids`, gcov 14 `conditions`/`calls`, and any producer may add keys
+anywhere: `C09_json_unknown_keys_irrelevant` says that keys a level does not read, inserted into any
+object at any depth and position, and any reordering of the keys of any object, leave the result
+unchanged – so fidelity extends to every such document.
+
+Where the code deviates from the property text (each with its theorem):
+* "a count that does not fit 64 bits is rejected rather than wrapped" holds in both forms: text
+  `C09_text_no_wrap`, `C09_text_counts_fit`; JSON `C09_json_no_wrap`,
+  `C09_json_float_counter_accepted_iff_below_two_pow_64`, `C09_json_two_pow_64_is_rejected`.
+  (Former finding C09-json-counter-2pow64-saturates, repaired in /repo 5cfb47a: a counter of exactly
+  2^64 – the literal 18446744073709551616 is an f64 for serde_json – passed `value <= u64::MAX as
+  f64` and was read as 2^64-1; the comparison is strict now. Witnesses: corpus/C09.)
+* a fractional float counter is truncated toward zero (0.5 ↦ 0, so "count > 0" can turn false):
+  `C09_json_fractional_counter_truncates`. The property text does not say what a non-integral
+  counter means (gcov never writes one); recorded, not judged a violation.
+* gcov 8 (neither "up to version 7" nor "9 and later", so outside the quantifier, but lib.rs
+  routes every gcov < 9 to `parse_gcov`): its `lcount:<line>,<count>,<flag>` has three fields and
+  makes the whole file `Err(Parse)` – `C09_text_gcov8_lcount_is_parse_error`; its
+  `function:<start>,<end>,<count>,<name>` is read with <end> as the call-count token and
+  `<count>,<name>` as the name (`C09_text_record` on that line). grcov cannot read gcov 8 output.
+
+Panics. No program point of the two models yields `Out.panic`, so the two `…_never_panics`
+theorems are true by construction of the models; what they rest on is the site-by-site reading of
+the Rust recorded here, and the tie (every harness case runs under `catch_unwind`):
+* `parse_gcov`: `File::open(..).unwrap_or_else(panic!)` – reachable when the path cannot be opened,
+  not by any file CONTENT; outside the model (the model starts from the bytes). `read_until(..)?` –
+  I/O error ⇒ `Err(Io)`, outside the model. `remove_newline`: `l.last().unwrap()` is guarded by
+  `is_none() ⇒ break`. `str::from_utf8_unchecked`: no check, no panic (on non-UTF-8 input the
+  language calls it undefined behaviour; all later operations split at ASCII bytes and the observed
+  behaviour is byte-wise – the harness only sends valid UTF-8). `try_next!`/`try_parse!`: return
+  `Err`. `vec![taken; 1]`, `BTreeMap`/`FxHashMap` inserts, `entry(..)`: cannot fail. No index
+  expression, no arithmetic. After the loop `let Some(cur_file) = cur_file else { return Err(..) }`.
+* `parse_gcov_gz`: `File::open` as above. `serde_json::from_reader(gz).map_err(..)?` – every gzip,
+  JSON-syntax, recursion-limit (128) and schema error is `Err(InvalidData)`.
+  `deserialize_counter`: `n.as_f64().unwrap()` is under `if n.is_f64()`, for which `as_f64` is
+  `Some`; `value as u64` is a saturating cast; `n.as_u64()` is matched. The loops only `drain`,
+  `insert` and compare (`b.count > 0`): no index, no arithmetic, no `unwrap`.
 -/
 import GrcovModel.Lemmas.Gcov
 namespace Grcov.Props.C09
@@ -95,10 +134,20 @@ theorem C09_text_reported_files (r : Report) (h : r.WF) :
       ∧ rs.map (·.1) = (r.secs.filter hasLcount).map (·.name) :=
   ⟨semText r, parse_render r h, semText_names r⟩
 
-/-- Every reported map has unique keys (a `CovResult` by construction). -/
+/-- Every reported map – lines, branches, functions – has unique keys (a `CovResult` by
+construction). -/
 theorem C09_text_maps_wellformed (rs : List Rec) :
-    NodupKeys (secLines rs) ∧ NodupKeys (secFunctions rs) :=
-  ⟨nodupKeys_ofList _, nodupKeys_ofList _⟩
+    NodupKeys (secLines rs) ∧ NodupKeys (secBranches rs) ∧ NodupKeys (secFunctions rs) :=
+  ⟨nodupKeys_ofList _, nodupKeys_groupPush _, nodupKeys_ofList _⟩
+
+/-- gcov 8 writes `lcount:<line>,<count>,<has_unexecuted_block>`: the count token is then
+`<count>,<flag>`, which is not a number – after any well-formed prefix and whatever follows, the
+whole file is `Err(Parse)`. (gcov 8 is outside the property's quantifier; lib.rs sends its output
+here all the same.) -/
+theorem C09_text_gcov8_lcount_is_parse_error (r : Report) (h : r.WF) (l d : Dec) (flag : Bytes)
+    (crs : Nat) (rest : Bytes) (hl : l.WF) (hlv : l.val ≤ U32MAX) (hd : d.WF) (hf : noEol flag) :
+    Text.parse (r.render ++ (lcount8 l d flag ++ eol crs ++ rest)) = .err "Parse" :=
+  parse_lcount8 r h l d flag crs rest hl hlv hd hf
 
 /-- The reader is compositional at line ends: reading `x ++ y`, where `x` is empty or ends with
 LF, continues from the state reached after `x`. -/
@@ -111,9 +160,13 @@ theorem C09_text_final_newline_optional (bs : Bytes) (hne : bs ≠ []) (hl : bs.
     Text.parse (bs ++ [10]) = Text.parse bs :=
   parse_snoc_lf bs hne hl
 
-/-- Robustness (used by C14): for every byte string the text reader returns `Ok` or `Err`; no
-program point of `parse_gcov` panics (lines read without any `file:` record are
-`Err(InvalidRecord)`). Outside the model: opening the file, and `from_utf8_unchecked` on non-UTF-8. -/
+/-- Robustness (used by C14): for every byte string the text reader model returns `Ok` or `Err`.
+TRUE BY CONSTRUCTION: no program point of `Text.parse` produces `Out.panic` (the constructor stays
+for the driver protocol), because the reading of `parse_gcov` recorded in the header of this file
+found no reachable panic site for any file content (lines read without any `file:` record are
+`Err(InvalidRecord)` since 9e71186). What carries the claim over to the Rust is that reading plus
+the tie (every case runs under `catch_unwind`), not this proof. Outside the model: opening the
+file (`File::open(..).unwrap_or_else(panic!)`), I/O errors, `from_utf8_unchecked` on non-UTF-8. -/
 theorem C09_text_never_panics (bs : Bytes) (site : String) : Text.parse bs ≠ .panic site :=
   parse_ne_panic bs site
 
@@ -125,22 +178,26 @@ that lists a line, in file order. -/
 theorem C09_json_fidelity (d : Doc) (h : d.WF) : Json.toResults d.toJson = .ok (semJson d) :=
   JsonL.toResults_toJson d h
 
-/-- `deserialize_counter`: an integer counter is taken as it is, a float counter `0 ≤ v ≤ 2^64` is
-truncated toward zero and saturates at 2^64-1. -/
+/-- `deserialize_counter`: an integer counter is taken as it is, a float counter `0 ≤ v < 2^64` is
+truncated toward zero. -/
 theorem C09_json_counter (c : Counter) (h : c.WF) : Json.asCounter c.toJson = some c.val :=
   JsonL.asCounter_toJson c h
 
-/-- No wrap: whatever JSON value is accepted as a counter, the result fits 64 bits; a float above
-2^64 and a negative integer are errors. -/
+/-- No wrap: whatever JSON value is accepted as a counter, the result fits 64 bits; a float of
+2^64 or more and a negative integer are errors. -/
 theorem C09_json_no_wrap :
     (∀ j n, Json.asCounter j = some n → n ≤ U64MAX)
-    ∧ (∀ m k, U64MAX + 1 < m * 2 ^ k → Json.asCounter (.num (.flt false m (.ofNat k))) = none)
+    ∧ (∀ m k, U64MAX < m * 2 ^ k → Json.asCounter (.num (.flt false m (.ofNat k))) = none)
     ∧ (∀ n, Json.asCounter (.num (.neg n)) = none) :=
   ⟨JsonL.asCounter_le, JsonL.asCounter_float_above, JsonL.asCounter_negative⟩
 
 /-- Robustness (used by C14): for every JSON value tree, and when the gzip/JSON-text layer itself
-fails (`none`), `parse_gcov_gz` returns `Ok` or `Err`, never a panic; a tree that does not decode as
-a `GcovJson` is `Err(InvalidData)`. -/
+fails (`none`), the model of `parse_gcov_gz` returns `Ok` or `Err`; a tree that does not decode as
+a `GcovJson` is `Err(InvalidData)`. The first two parts are TRUE BY CONSTRUCTION (no program point
+of `Json.toResults` produces `Out.panic`): the site-by-site reading in the header found no
+reachable panic in `parse_gcov_gz`, `deserialize_counter` (`as_f64().unwrap()` sits under
+`is_f64()`) or the derived visitors; the tie runs every case under `catch_unwind`. Outside the
+model: `File::open(..).unwrap_or_else(panic!)`, flate2 and serde_json's text layer. -/
 theorem C09_json_never_panics :
     (∀ (r : Option Json) (site : String), Json.fromReader r ≠ .panic site)
     ∧ (∀ (j : Json) (site : String), Json.toResults j ≠ .panic site)
@@ -171,10 +228,66 @@ theorem C09_json_reported_files (d : Doc) (h : d.WF) :
       ∧ rs.map (·.1) = (d.files.filter fun f => !f.lines.isEmpty).map (·.file) :=
   ⟨semJson d, JsonL.toResults_toJson d h, JsonL.semJson_names d⟩
 
-/-- Key order inside a JSON object does not matter to a struct field. -/
-theorem C09_json_key_order {β : Type} {kvs kvs' : List (Bytes × Json)} (p : kvs.Perm kvs')
-    (k : Bytes) (dec : Json → Option β) : Json.req kvs k dec = Json.req kvs' k dec :=
-  JsonL.req_perm p k dec
+/-- Key order does not matter: reordering the keys of the document object leaves the RESULT
+unchanged (and, field by field, every struct field read from any object). Reordering inside nested
+objects (files, functions, lines, branches) is covered by `C09_json_unknown_keys_irrelevant`
+(`C09_json_related_objects`, third part, at that level). -/
+theorem C09_json_key_order {kvs kvs' : List (Bytes × Json)} (p : kvs.Perm kvs') :
+    Json.toResults (.obj kvs) = Json.toResults (.obj kvs')
+    ∧ ∀ (β : Type) (k : Bytes) (dec : Json → Option β), Json.req kvs k dec = Json.req kvs' k dec :=
+  ⟨JsonL.toResults_sim (.obj (JsonL.objSim_perm JsonL.docRel_refl_values p)),
+   fun _ k dec => JsonL.req_perm p k dec⟩
+
+/-- Unknown keys do not change the result, and neither does key order, at any level: if `j'` holds
+the same read content as `j` (`DocRel`: level by level – document, file, function, line, branch –
+the objects agree, up to the order of their keys, once the keys that level does not read are
+deleted; see `C09_json_related_objects` for how that arises), then `parse_gcov_gz` returns the same
+for both. In particular gcov 13's `block_ids`, gcov 14's `conditions`/`calls` and any other key
+outside the read set, added to any object at any depth and in any position, are irrelevant. -/
+theorem C09_json_unknown_keys_irrelevant (j j' : Json) (h : JsonL.DocRel j j') :
+    Json.toResults j = Json.toResults j' :=
+  JsonL.toResults_sim h
+
+/-- How related objects arise, at every level (`S` the keys the level reads, `R` any relation on
+the values that holds between a value and itself): (1) equal after deleting the unread keys;
+(2) an unread key inserted at ANY position; (3) any permutation of the pairs. (`ObjRel.obj` turns
+each into `BrRel`/`FnRel`/`LineRel`/`FileRel`/`DocRel`, `ArrRel.arr` lifts element-wise through
+the `files`/`functions`/`lines`/`branches` arrays.) -/
+theorem C09_json_related_objects (S : List Bytes) (R : Bytes → Json → Json → Prop)
+    (hr : ∀ k a, R k a a) :
+    (∀ kvs kvs', JsonL.strip S kvs = JsonL.strip S kvs' → JsonL.ObjSim S R kvs kvs') ∧
+    (∀ pre post k v, k ∉ S → JsonL.ObjSim S R (pre ++ post) (pre ++ (k, v) :: post)) ∧
+    (∀ kvs kvs', kvs.Perm kvs' → JsonL.ObjSim S R kvs kvs') :=
+  ⟨fun _ _ h => JsonL.objSim_of_strip_eq hr h,
+   fun pre post k v hk => JsonL.objSim_insert hr pre post k v hk,
+   fun _ _ p => JsonL.objSim_perm hr p⟩
+
+/-- A JSON counter that is exactly 2^64 (written 18446744073709551616, or 1.8446744073709552e19:
+both are the f64 2^64 for serde_json) is rejected: `deserialize_counter` tests
+`value < u64::MAX as f64` and `u64::MAX as f64` is 2^64 (since /repo 5cfb47a; before, it was
+accepted and read as 2^64-1). -/
+theorem C09_json_two_pow_64_is_rejected (m k : Nat) (h : m * 2 ^ k = U64MAX + 1) :
+    Json.asCounter (.num (.flt false m (.ofNat k))) = none :=
+  JsonL.asCounter_two_pow_64 m k h
+
+/-- A float counter (exact value v = m·2^k resp. m/2^(k+1), sign `+`) is accepted iff
+0 ≤ v < 2^64, and the result is v truncated toward zero: exactly v when v is integral, so no
+accepted counter exceeds 2^64-1 and none is altered by saturation; a negative float other than
+−0.0 is rejected. The largest f64 below 2^64, (2^53-1)·2^11 = 18446744073709549568 (written
+1.844674407370955e19), is accepted as itself (example below). -/
+theorem C09_json_float_counter_accepted_iff_below_two_pow_64 :
+    (∀ m k n, Json.asCounter (.num (.flt false m (.ofNat k))) = some n
+        ↔ m * 2 ^ k ≤ U64MAX ∧ n = m * 2 ^ k)
+    ∧ (∀ m k n, Json.asCounter (.num (.flt false m (.negSucc k))) = some n
+        ↔ m < (U64MAX + 1) * 2 ^ (k + 1) ∧ n = m / 2 ^ (k + 1))
+    ∧ (∀ m e, m ≠ 0 → Json.asCounter (.num (.flt true m e)) = none) :=
+  ⟨JsonL.asCounter_float_int, JsonL.asCounter_float_frac, JsonL.asCounter_float_negative⟩
+
+/-- A fractional float counter m/2^(k+1) below 2^64 is truncated toward zero (0.5 ↦ 0, 1.5 ↦ 1): a
+branch or function with count 0.5 is reported as not taken / not executed. -/
+theorem C09_json_fractional_counter_truncates (m k : Nat) (h : m < (U64MAX + 1) * 2 ^ (k + 1)) :
+    Json.asCounter (.num (.flt false m (.negSucc k))) = some (m / 2 ^ (k + 1)) :=
+  (JsonL.asCounter_float_frac m k _).mpr ⟨h, rfl⟩
 
 /-! ## Non-vacuity -/
 
@@ -232,7 +345,7 @@ def exDoc : Doc :=
           functions := [⟨[102], [102, 40, 105, 110, 116, 44, 32, 99, 104, 97, 114, 41], 3, 1, 9, 1, 4, 2, .flt 5 (.negSucc 0)⟩]
           lines :=
             [ ⟨3, none, .int 7, false, [⟨.int 0, false, true⟩, ⟨.flt 3 (.ofNat 0), false, false⟩]⟩,
-              ⟨4, some (some [102]), .flt 1 (.ofNat 64), true, []⟩ ] },
+              ⟨4, some (some [102]), .flt 9007199254740991 (.ofNat 11), true, []⟩ ] },
         { file := [98, 46, 99], functions := [], lines := [] } ] }
 
 example : exDoc.WF := by
@@ -243,9 +356,67 @@ example : exDoc.WF := by
 
 example : Json.toResults exDoc.toJson
     = .ok [([97, 46, 99],
-            { lines := [(3, 7), (4, U64MAX)], branches := [(3, [false, true])],
+            { lines := [(3, 7), (4, 18446744073709549568)], branches := [(3, [false, true])],
               functions := [([102, 40, 105, 110, 116, 44, 32, 99, 104, 97, 114, 41], ⟨3, true⟩)] })] := by
   decide +kernel
+
+/-- gcov 8: `file:a.c⏎lcount:10,1,0⏎` is `Err(Parse)`; `function:10,12,0,foo` is read as the function
+`0,foo` starting at line 10, executed (the token `12` is not `0`) -/
+example : Text.parse [102, 105, 108, 101, 58, 97, 46, 99, 10, 108, 99, 111, 117, 110, 116, 58, 49, 48, 44, 49,
+    44, 48, 10] = .err "Parse"
+  ∧ Text.parse [102, 105, 108, 101, 58, 97, 46, 99, 10, 102, 117, 110, 99, 116, 105, 111, 110, 58, 49, 48, 44,
+    49, 50, 44, 48, 44, 102, 111, 111, 10, 108, 99, 111, 117, 110, 116, 58, 49, 48, 44, 49, 10]
+    = .ok [([97, 46, 99], { lines := [(10, 1)], functions := [([48, 44, 102, 111, 111], ⟨10, true⟩)] })] := by
+  decide +kernel
+
+/-- 2^64 is rejected, the largest f64 below it, (2^53-1)·2^11, is accepted as itself, 0.5 is 0, 1.5
+is 1, 2^65 and -1 are rejected -/
+example : Json.asCounter (.num (.flt false 1 64)) = none
+    ∧ Json.asCounter (.num (.flt false 9007199254740991 11)) = some 18446744073709549568
+    ∧ Json.asCounter (.num (.flt false 1 (-1))) = some 0
+    ∧ Json.asCounter (.num (.flt false 3 (-1))) = some 1
+    ∧ Json.asCounter (.num (.flt false 1 65)) = none
+    ∧ Json.asCounter (.num (.neg 1)) = none := by decide +kernel
+
+/-- a gcov 13/14-style document: unknown keys at document, file, function, line and branch level
+(`block_ids`, `conditions`, `calls`, …) and shuffled keys; the result is that of the plain document -/
+def exDoc13 : Json :=
+  .obj [([120], .null), (Json.kFiles, .arr [.obj [(Json.kLines, .arr [.obj [(Json.kBranches, .arr [.obj [(Json.kThrow, .bool false), ([115, 111, 117, 114, 99, 101, 95, 98, 108, 111, 99, 107, 95, 105, 100], .num (.pos 2)), (Json.kCount, .num (.pos 0)), (Json.kFallthrough, .bool true)]]), ([98, 108, 111, 99, 107, 95, 105, 100, 115], .arr [.num (.pos 1)]), (Json.kCount, .num (.pos 7)), ([99, 111, 110, 100, 105, 116, 105, 111, 110, 115], .arr []), (Json.kLineNumber, .num (.pos 3)), ([99, 97, 108, 108, 115], .arr [.obj []]), (Json.kUnexecutedBlock, .bool false)]]), (Json.kFile, .str [97, 46, 99]), ([122], .obj [(Json.kFile, .str [98])]), (Json.kFunctions, .arr [.obj [(Json.kName, .str [102]), (Json.kDemangledName, .str [102]), (Json.kStartLine, .num (.pos 3)), (Json.kStartColumn, .num (.pos 1)), (Json.kEndLine, .num (.pos 9)), (Json.kEndColumn, .num (.pos 1)), (Json.kBlocks, .num (.pos 4)), ([98, 108, 111, 99, 107, 115, 95, 120], .num (.neg 1)), (Json.kBlocksExecuted, .num (.pos 2)), (Json.kExecutionCount, .num (.pos 5))]])]]), (Json.kFormatVersion, .str [50]), (Json.kGccVersion, .str [49, 52]), (Json.kDataFile, .str [100])]
+
+example : Json.toResults exDoc13
+    = .ok [([97, 46, 99], { lines := [(3, 7)], branches := [(3, [false])], functions := [([102], ⟨3, true⟩)] })] := by
+  decide +kernel
+
+/-- the hypothesis of `C09_json_unknown_keys_irrelevant` is met by a key added in front of any
+document object, and by a nested insertion (a `block_ids` key inside a line object of a file) -/
+example (kvs : List (Bytes × Json)) : JsonL.DocRel (.obj kvs) (.obj (([120], .null) :: kvs)) :=
+  .obj (JsonL.objSim_insert JsonL.docRel_refl_values [] kvs [120] .null (by decide))
+
+/-- the value relation of a line object holds between a value and itself -/
+private theorem lineRefl : ∀ (k : Bytes) (a : Json), (if k = Json.kBranches then JsonL.ArrRel JsonL.BrRel a a else a = a) := by
+  intro k a; split
+  · exact .refl a
+  · rfl
+
+/-- nested: `block_ids` appended to a line object of a file of any document -/
+example (l : List (Bytes × Json)) (hdr : List (Bytes × Json)) :
+    JsonL.DocRel (.obj ((Json.kFiles, .arr [.obj [(Json.kLines, .arr [.obj l])]]) :: hdr))
+           (.obj ((Json.kFiles, .arr [.obj [(Json.kLines, .arr [.obj (l ++ [([98, 108, 111, 99, 107, 95, 105, 100, 115], .arr [])])])]]) :: hdr)) := by
+  have hline : JsonL.LineRel (.obj l) (.obj (l ++ [([98, 108, 111, 99, 107, 95, 105, 100, 115], .arr [])])) := by
+    have := JsonL.objSim_insert (S := JsonL.lineKeys) (R := fun k a b => if k = Json.kBranches then JsonL.ArrRel JsonL.BrRel a b else a = b) lineRefl l [] [98, 108, 111, 99, 107, 95, 105, 100, 115] (.arr []) (by decide)
+    simp only [List.append_nil] at this
+    exact .obj this
+  have hfile : JsonL.FileRel (.obj [(Json.kLines, .arr [.obj l])])
+      (.obj [(Json.kLines, .arr [.obj (l ++ [([98, 108, 111, 99, 107, 95, 105, 100, 115], .arr [])])])]) := by
+    refine .obj ⟨[(Json.kLines, .arr [.obj (l ++ [([98, 108, 111, 99, 107, 95, 105, 100, 115], .arr [])])])], ?_, List.Perm.refl _⟩
+    refine .cons ⟨rfl, ?_⟩ .nil
+    have n : Json.kLines ≠ Json.kFunctions := by decide
+    simp only [n, if_false, if_true]
+    exact .arr (.cons hline .nil)
+  refine .obj ⟨(Json.kFiles, .arr [.obj [(Json.kLines, .arr [.obj (l ++ [([98, 108, 111, 99, 107, 95, 105, 100, 115], .arr [])])])]]) :: JsonL.strip JsonL.docKeys hdr, ?_, List.Perm.refl _⟩
+  refine .cons ⟨rfl, ?_⟩ (JsonL.forall2_refl JsonL.docRel_refl_values _)
+  simp only [if_true]
+  exact .arr (.cons hfile .nil)
 
 /-- former robustness defect (fixed in /repo 9e71186): a document without `files`, and a failure of
 the gzip/JSON-text layer, are `Err(InvalidData)`, not a panic -/
